@@ -278,6 +278,78 @@ def hostile_patches(data: bytes, rng: random.Random, kind: str):
 
 # --------------------------------------------------------------------------- cases
 
+
+# --------------------------------------------------------------------------- the Lean writer (Hv/HyperVEnc.lean) vs gen_hyperv
+
+ENC_MAX = 1 << 20       # files up to this size are re-encoded by the Lean writer
+
+
+def _hx(b: bytes) -> str:
+    return b.hex() if b else "-"
+
+
+def _tree_tokens(node) -> list[str]:
+    out = [str(len(node.get("children", {})))]
+    for k, c in node.get("children", {}).items():
+        out.append(_hx(k.encode("utf-8")))
+        t = c["t"]
+        if t == "node":
+            out += ["N"] + _tree_tokens(c)
+        elif t == "int":
+            out += ["I", str(int(c["v"]))]
+        elif t == "uint":
+            out += ["U", str(int(c["v"]))]
+        elif t == "double":
+            out += ["D", str(int(c["bits"]))]
+        elif t == "str":
+            out += ["S", _hx(gen_hyperv.leaf_value(c).encode("utf-16-le"))]
+        elif t == "bytes":
+            out += ["Y", _hx(gen_hyperv.leaf_value(c))]
+        else:
+            out += ["B", "1" if c["v"] else "0"]
+    return out
+
+
+def phys_tokens(data: bytes, trace: dict, tree) -> list[str]:
+    """the written file split back into the fields of the physical description `Phys` of Hv/HyperVEnc.lean (independent field
+    splitter: struct formats hard-coded here), plus the tree. `hyperv.enc` lays the description out again; the bytes must be the same."""
+    pos, regs = trace["pos"], trace["regs"]
+    toks = [str(len(data))]
+    for off in (0, 0x1000):
+        toks += ["H"] + [str(x) for x in struct.unpack_from("<IIHIQIQQI", data, off)]
+    lo, ln = pos["log"], regs["log"]
+    sig, ck, n = struct.unpack_from("<III", data, lo)
+    assert sig == gen_hyperv.SIG_LOG
+    toks += ["L", str(lo), str(ck), str(n), _hx(data[lo + 12:lo + ln])]
+    for k, cnt in enumerate(trace["ot_n"]):
+        o = pos[f"ot{k}"]
+        sig, n = struct.unpack_from("<II", data, o)
+        assert sig == gen_hyperv.SIG_OT and n == cnt
+        toks += ["O", str(o), str(n)]
+        for j in range(n):
+            toks += [str(x) for x in struct.unpack_from("<BIQIB", data, o + 8 + 18 * j)]
+    kts = [(pos[f"kt{i}"], sz, tail) for i, (sz, tail) in enumerate(trace["tables"])] + [(pos[f"dk{i}"], sz, tail) for i, (sz, tail) in enumerate(trace["decoys"])]
+    for base, size, tail in kts:
+        sig, idx, seq, ck = struct.unpack_from("<HHHI", data, base)
+        assert sig == gen_hyperv.SIG_KT
+        ents, o = [], 10
+        while o < size:
+            ty, esz, pt, po, eck, ins, doff = struct.unpack_from("<HIHIIIB", data, base + o)
+            if esz == 0:
+                break
+            ents.append((ty, pt, po, eck, ins, doff, data[base + o + 21:base + o + esz]))
+            o += esz
+        assert (o == size) != (tail == "zero"), (o, size, tail)
+        tl = "x" if o == size else _hx(data[base + o + 21:base + size])
+        toks += ["K", str(base), str(idx), str(seq), str(ck), tl, str(len(ents))]
+        for e in ents:
+            toks += [str(x) for x in e[:6]] + [_hx(e[6])]
+    for name, o in pos.items():
+        if name.startswith("fo") or name.startswith("junk") or name == "ilog":
+            toks += ["B", str(o), _hx(data[o:o + (48 if name == "ilog" else regs[name])])]
+    return toks + ["T"] + _tree_tokens(tree)
+
+
 def second_object_table(r, rng):
     """directed layout: the FIRST object table holds an allocated ObjectTable entry that points to a SECOND object table, and that
     second table lists the key table with the most entries (and one more at random) and every second file object -- so a reader
@@ -324,7 +396,8 @@ def _depth2(tree) -> bool:
 
 def build(case):
     r = copy.deepcopy(case["recipe"])          # build_image annotates the recipe's dicts
-    im, truth, typed = gen_hyperv.build_image(r)
+    trace = {}
+    im, truth, typed = gen_hyperv.build_image(r, trace)
     ents = gen_hyperv.entries(r["tree"])
     opts = r.get("opts", {})
     hostile = case.get("hostile")
@@ -366,6 +439,10 @@ def build(case):
             "entries": len(ents), "file_objects": nfo}
     bl = Built({"a": im}, T, info)
     bl.data = im.read_at(0, im.size) if im.size <= (64 << 20) else None
+    bl.enc = None
+    if in_scope or case.get("root_leaf"):
+        if bl.data is not None and len(bl.data) <= ENC_MAX:
+            bl.enc = phys_tokens(bl.data, trace, r["tree"])
     return bl
 
 
@@ -430,7 +507,7 @@ def impl_run(case, built):
 
 
 def model_lines(case, built):
-    return core.file_lines(built.files) + ["hyperv.tree a"]
+    return core.file_lines(built.files) + ["hyperv.tree a"] + (["hyperv.enc " + " ".join(built.enc)] if getattr(built, "enc", None) else [])
 
 
 def _mblock(tag, s, strip_types):
@@ -450,7 +527,26 @@ def model_parse(case, built, out):
     t, et = _mblock("T", st, False)
     if "nonterm" in (ea, et):
         return {"answers": None, "wf": False, "raw": "model fuel exhausted"}
-    return {"answers": block("A", a) + block("T", t) + ["R:same"], "wf": a is not None and t is not None and built.info["in_scope"], "errs": [ea, et]}
+    # `wf` = the case is inside the hypotheses of hyperv_file_roundtrip (`Desc.WF`, evaluated by `hyperv.enc` below); files the Lean
+    # writer is not asked to re-encode (> ENC_MAX, far placements) and hostile edits are not counted
+    res = {"answers": block("A", a) + block("T", t) + ["R:same"], "wf": None, "errs": [ea, et]}
+    if getattr(built, "enc", None):
+        # the file IS `Phys.file d` for the description d split off the generator's bytes: the Lean writer must reproduce the bytes
+        # (ties Hv/HyperVEnc.lean to gen_hyperv), the description must be well formed (`Phys.WF`), and inside `Desc.WF` the
+        # evaluated instance of hyperv_file_roundtrip(_typed) must hold; `wf` = the case is inside the theorem's hypotheses
+        line = out[1] if len(out) > 1 else ""
+        f = line.split(" ")
+        res["spec"] = line[:400]
+        if len(f) < 8 or f[0] != "ok":
+            res["spec_eq_model"] = False
+        else:
+            same = f[5] == f"{len(built.data)}.{zlib.crc32(built.data) & 0xFFFFFFFF}"
+            inside = f[2] == "D1" and (f[3] == "R1" or case.get("root_leaf"))
+            thm = f[8] in ("A-Y-", "A1Y1") or (case.get("root_leaf") and f[8] == "A0Y1" and f[3] == "R0")
+            res["spec_eq_model"] = same and f[1] == "P1" and f[4] == "S1" and (thm or f[2] != "D1")
+            res["enc_same"], res["desc_wf"] = same, f[2] == "D1"
+            res["wf"] = bool(inside and built.info["in_scope"])
+    return res
 
 
 def nontrivial(case, built, model):
